@@ -483,6 +483,11 @@ class ScriptGen:
         out.append((b'\x01\x51', b'\xa9\x13' + h[:19] + b'\x87\x61', 'p2sh-19'))
         out.append((b'\x01\x51', b'\xaa\x14' + h + b'\x87', 'hash256-shape'))
         out.append((b'', b'\xa9\x14' + h + b'\x87', 'p2sh-empty-sig'))
+        # 23 bytes, HASH160 first and 0x87 last, but the push is not a 20-byte push: not P2SH
+        for red in (b'\x51', b'\x00', b'\x6a'):
+            out.append((push(red), b'\xa9\x15' + H160(red) + b'\x87', 'p2sh-shape-21-byte-push'))
+            out.append((push(red), b'\xa9\x13' + H160(red)[:19] + b'\x51\x87', 'p2sh-shape-19-byte-push'))
+            out.append((push(red), b'\xa9\x4c\x13' + H160(red)[:19] + b'\x87', 'p2sh-shape-pushdata1'))
         # plain
         out += [(b'\x51', b'\x51', 'two-true'), (b'', b'\x51', 'true'), (b'', b'', 'empty'), (b'\x51', b'', 'sig-only'),
                 (b'\x00', b'', 'false'), (b'\x51', b'\x00', 'false-top'), (b'\x01\x80', b'', 'neg-zero'),
@@ -492,6 +497,188 @@ class ScriptGen:
         for _ in range(4):
             out.append((self.gen_program(rng, 10), self.gen_program(rng, 14), 'random-pair'))
         return out
+
+
+    # ---- SEQUENCE cases: state that could survive across calls in one process ---------------------
+    def step(self, kind, a0, a1, mask, ti_or_tx, idx, txref='new'):
+        tx = self.txtext[ti_or_tx] if isinstance(ti_or_tx, int) else ti_or_tx
+        a1s = stack_arg(a1) if kind == 'e' else bytes(a1).hex()
+        return [kind, bytes(a0).hex(), a1s, str(mask), tx, str(idx), txref]
+
+    def seq_histories(self, rng, masks):
+        """[(tag, [step, ...])]; every history starts from freshly imported bitcoin.* modules"""
+        out = []
+        kA, kB = 0, 2
+        pubA = self.key(kA)[1]
+        pubB = self.key(kB)[1]
+        bad_keys = [b'', b'\x02' + b'\x00' * 32, b'\x05' + pubA[1:], pubA[:-1], b'\x04' + b'\x01' * 64, b'\x00']
+        for ti in range(3):
+            nin = len(self.txs[ti]['vin'])
+            idx = rng.randrange(nin)
+            mask = rng.choice(masks)
+            spkA = push(pubA) + b'\xac'
+            sigA = self.sign(kA, spkA, ti, idx)
+            # H1: a valid CHECKSIG with key A, then a plainly malformed key with a signature by A: must fail
+            for bad in bad_keys:
+                spk_bad = push(bad) + b'\xac'
+                sig_for_bad = self.sign(kA, spk_bad, ti, idx)
+                out.append(('seq-key-then-malformed', [
+                    self.step('v', push(sigA), spkA, mask, ti, idx),
+                    self.step('v', push(sig_for_bad), spk_bad, mask, ti, idx),
+                    self.step('v', push(sigA), spkA, mask, ti, idx)]))
+                out.append(('seq-key-then-malformed-eval', [
+                    self.step('e', b'\xac', [self.sign(kA, b'\xac', ti, idx), pubA], mask, ti, idx),
+                    self.step('e', b'\xac', [self.sign(kA, b'\xac', ti, idx), bad], mask, ti, idx),
+                    self.step('e', b'\xac\x69', [self.sign(kA, b'\xac\x69', ti, idx), bad], mask, ti, idx)]))
+                # H2: 2-of-2 {A, malformed} with two signatures by A
+                ms = pushnum(2) + push(pubA) + push(bad) + pushnum(2) + b'\xae'
+                s1 = self.sign(kA, ms, ti, idx)
+                s2 = self.sign(kA, ms, ti, idx, 0x81)
+                one = pushnum(1) + push(pubA) + pushnum(1) + b'\xae'
+                out.append(('seq-multisig-malformed', [
+                    self.step('v', b'\x00' + push(self.sign(kA, one, ti, idx)), one, mask, ti, idx),
+                    self.step('v', b'\x00' + push(s1) + push(s2), ms, mask, ti, idx),
+                    self.step('v', b'\x00' + push(s2) + push(s1), ms, mask, ti, idx)]))
+            # H3: the same scriptPubKey against different transactions / input indices, alternately
+            tj = (ti + 1) % 3
+            jdx = rng.randrange(len(self.txs[tj]['vin']))
+            sigB = self.sign(kA, spkA, tj, jdx)
+            out.append(('seq-alternate-tx', [
+                self.step('v', push(sigA), spkA, mask, ti, idx),
+                self.step('v', push(sigA), spkA, mask, tj, jdx),
+                self.step('v', push(sigB), spkA, mask, tj, jdx),
+                self.step('v', push(sigB), spkA, mask, ti, idx)]))
+            if nin > 1:
+                i2 = (idx + 1) % nin
+                out.append(('seq-alternate-index', [
+                    self.step('v', push(sigA), spkA, mask, ti, idx),
+                    self.step('v', push(sigA), spkA, mask, ti, i2),
+                    self.step('v', push(self.sign(kA, spkA, ti, i2)), spkA, mask, ti, i2),
+                    self.step('v', push(sigA), spkA, mask, ti, idx)]))
+            # H4: a live CMutableTransaction verified, edited in place, verified again
+            for ht, edit, tag in ((1, 'value', 'committed'), (1, 'locktime', 'committed'), (1, 'otherseq', 'committed'),
+                                  (0x82, 'value', 'uncommitted'), (3, 'othervalue', 'mixed'), (1, 'script', 'uncommitted')):
+                import copy
+                t2 = copy.deepcopy(self.txs[ti])
+                if edit == 'value':
+                    v, sc = t2['vout'][0]
+                    t2['vout'][0] = (v + 1, sc)
+                elif edit == 'locktime':
+                    t2['lock'] = (t2['lock'] + 1) % 2 ** 32
+                elif edit == 'otherseq':
+                    j = (idx + 1) % nin
+                    h, n, sc, q = t2['vin'][j]
+                    t2['vin'][j] = (h, n, sc, (q + 1) % 2 ** 32)
+                elif edit == 'othervalue':
+                    j = (idx + 1) % len(t2['vout'])
+                    v, sc = t2['vout'][j]
+                    t2['vout'][j] = (v + 5, sc)
+                elif edit == 'script':
+                    h, n, sc, q = t2['vin'][idx]
+                    t2['vin'][idx] = (h, n, sc + b'\x51', q)          # scriptSig is blanked by the sighash
+                sg = self.sign(kA, spkA, ti, idx, ht)
+                out.append(('seq-edit-in-place-' + tag, [
+                    self.step('v', push(sg), spkA, mask, ti, idx, 'newmut'),
+                    self.step('v', push(sg), spkA, mask, txfmt.show_tx(t2), idx, 'live'),
+                    self.step('v', push(sg), spkA, mask, ti, idx, 'live')]))
+            # H5: the same script object evaluated again with another stack / other flags (a cached parse would show)
+            prog = self.gen_program(rng, 12)
+            out.append(('seq-same-script-add', [
+                self.step('e', b'\x93\x76', [b'\x01', b'\x02'], mask, ti, idx),
+                self.step('e', b'\x93\x76', [], mask, ti, idx),
+                self.step('e', b'\x93\x76', [b'\x7f', b'\x01', b'\x02', b'\x03'], mask, ti, idx),
+                self.step('v', b'\x51\x52', b'\x93\x76', mask & ~4, ti, idx),
+                self.step('v', b'\x51', b'\x93\x76', mask & ~4, ti, idx)]))
+            out.append(('seq-same-script', [
+                self.step('e', prog, [b'\x01', b'\x02'], mask, ti, idx),
+                self.step('e', prog, [], 8 if mask != 8 else 0, ti, idx),
+                self.step('e', prog, [b'', b'\x01', b'\x02', b'\x03'], mask, ti, idx)]))
+            # H6: an error, then a success (interpreter state must be rebuilt per call)
+            out.append(('seq-error-then-ok', [
+                self.step('e', b'\x51\x63\x51\x6b', [], mask, ti, idx),
+                self.step('e', b'\x6c', [], mask, ti, idx),
+                self.step('e', b'\x68', [], mask, ti, idx),
+                self.step('v', b'\x51', b'\x51', 0, ti, idx)]))
+        # random histories over the VerifyScript templates
+        pairs = self.verify_pairs(rng, 0, 0) + self.verify_pairs(rng, 1, 1)
+        for _ in range(6):
+            steps = []
+            for _k in range(rng.choice([2, 3, 4])):
+                sig, spk, _t = rng.choice(pairs)
+                ti = rng.randrange(2)
+                steps.append(self.step('v', sig, spk, rng.choice(masks), ti, ti))
+            out.append(('seq-random', steps))
+        return out
+
+    def sync_tx_in_place(self, live, t):
+        """edit the live CMutableTransaction field by field until it equals the plain value `t`"""
+        C, S = self.C, self.S
+        live.nVersion = t['ver']
+        live.nLockTime = t['lock']
+        while len(live.vin) > len(t['vin']):
+            live.vin.pop()
+        for k, (h, n, sc, q) in enumerate(t['vin']):
+            if k < len(live.vin):
+                live.vin[k].prevout.hash = h
+                live.vin[k].prevout.n = n
+                live.vin[k].scriptSig = S.CScript(sc)
+                live.vin[k].nSequence = q
+            else:
+                live.vin.append(C.CMutableTxIn(C.CMutableOutPoint(h, n), S.CScript(sc), q))
+        while len(live.vout) > len(t['vout']):
+            live.vout.pop()
+        for k, (v, sc) in enumerate(t['vout']):
+            if k < len(live.vout):
+                live.vout[k].nValue = v
+                live.vout[k].scriptPubKey = S.CScript(sc)
+            else:
+                live.vout.append(C.CMutableTxOut(v, S.CScript(sc)))
+        assert txfmt.from_tx(live) == dict(t, wit=None), 'in-place edit did not reach the target transaction'
+
+    def run_history(self, args, observe=None):
+        """fresh bitcoin.* modules, then the steps on live objects; returns the step outcomes joined by ' ;; '"""
+        import sys
+        for m in list(sys.modules):
+            if m == 'bitcoin' or m.startswith('bitcoin.'):
+                del sys.modules[m]
+        self.init_lib()
+        live = None
+        scripts = {}
+        outs = []
+        for k in range(0, len(args), 7):
+            kind, a0, a1, mask, tx, idx, txref = args[k:k + 7]
+            t = txfmt.parse_tx(tx)
+            if txref == 'newmut':
+                live = txfmt.to_tx(t, mutable=True)
+                txo = live
+            elif txref == 'live' and live is not None:
+                self.sync_tx_in_place(live, t)
+                txo = live
+            else:
+                txo = txfmt.to_tx(t, mutable=False)
+
+            def cs(hexs):
+                if hexs not in scripts:
+                    scripts[hexs] = self.S.CScript(bytes.fromhex(hexs))
+                return scripts[hexs]
+            flags = self.flagset(int(mask))
+            if kind == 'e':
+                stack = parse_stack_arg(a1)
+                sc = cs(a0)
+
+                def f():
+                    self.E.EvalScript(stack, sc, txo, int(idx), flags=flags)
+                    return 'ok:%d:%s' % (len(stack), ','.join(bytes(x).hex() for x in stack))
+                watched = [sc]
+            else:
+                sg, spk = cs(a0), cs(a1)
+
+                def f():
+                    self.E.VerifyScript(sg, spk, txo, int(idx), flags=flags)
+                    return 'ok'
+                watched = [sg, spk]
+            outs.append(observe(f, txo, watched) if observe else guarded(f))
+        return ' ;; '.join(outs)
 
 
 class C06(Prop, ScriptGen):
@@ -558,19 +745,63 @@ class C06(Prop, ScriptGen):
                     continue
                 for mask in ADMISSIBLE:
                     yield self.ev(prog, st, mask, tag='1op')
-        # (a') thorough: exhaustive 2-opcode programs over the non-push opcodes
-        if big:
-            nonpush = [0x4f, 0x50] + list(range(0x61, 0xbb)) + [0xfa, 0xff]
-            st8 = [[], [b'\x01'], [b'', b'\x01'], [b'\x01', b'\x02', b'\x03'], [b'\x03', b'\x02', b'\x01', b''],
-                   [b'\x0a', b'\x0b', b'\x0c', b'\x0d', b'\x0e', b'\x02'], [b'\x80', b'\xff\xff\xff\x7f', b'\x01'],
-                   [b'', b'', b'', b'']]
-            for a in nonpush:
-                for b in nonpush:
-                    i += 1
-                    if i % nshards != shard:
-                        continue
-                    for st in st8:
-                        yield self.ev(bytes([a, b]), st, rng.choice(ADMISSIBLE), tag='2op')
+        # (a') exhaustive 2-opcode programs over the opcodes that are not plain pushes (3 stacks quick, 8 thorough),
+        #      and every such opcode in three contexts: with an item on the altstack, inside an executed IF,
+        #      inside a branch that is not executed
+        nonpush = [0x4f, 0x50] + list(range(0x61, 0xbb)) + [0xfa, 0xff]
+        st8 = [[], [b'\x01', b'\x02', b'\x03'], [b'\x0a', b'\x0b', b'\x0c', b'\x0d', b'\x0e', b'\x02'],
+               [b'\x01'], [b'', b'\x01'], [b'\x03', b'\x02', b'\x01', b''], [b'\x80', b'\xff\xff\xff\x7f', b'\x01'],
+               [b'', b'', b'', b'']]
+        for a in nonpush:
+            for b in nonpush:
+                i += 1
+                if i % nshards != shard:
+                    continue
+                for st in (st8 if big else st8[:3]):
+                    yield self.ev(bytes([a, b]), st, 0 if not big else rng.choice(ADMISSIBLE), tag='2op')
+            i += 1
+            if i % nshards != shard:
+                continue
+            for st in st8[:4]:
+                yield self.ev(b'\x51\x6b' + bytes([a]), st, 0, tag='op-with-altstack')
+                yield self.ev(b'\x51\x63' + bytes([a]) + b'\x68', st, 0, tag='op-in-if')
+                yield self.ev(b'\x00\x63' + bytes([a]) + b'\x68', st, 8, tag='op-not-executed')
+                yield self.ev(b'\x51\x63\x67' + bytes([a]) + b'\x68', st, 0, tag='op-in-else-not-executed')
+            # every opcode on deep stacks (near the item limit) and after many counted operations
+            yield self.ev(bytes([a]), [b'\x01'] * 701 + [b'\x02', b'\x03'], 0, tag='op-on-deep-stack')
+            yield self.ev(bytes([a]), [b'\x01'] * 997 + [b'\x02', b'\x02'], 0, tag='op-on-deep-stack')
+            yield self.ev(b'\x61' * 200 + bytes([a]), [b'\x01', b'\x02', b'\x03'], 0, tag='op-at-opcount-limit')
+        # numeric grid: every unary / binary numeric opcode and WITHIN over boundary operands
+        nums = [-2, -1, 0, 1, 2, 127, 128, -128, 255, 256, 2 ** 31 - 1, -(2 ** 31 - 1)]
+        odd = [b'\x80', b'\x00', b'\x00\x80', b'\x01\x00', b'\x00\x00\x00\x80', b'\x00\x00\x00\x00\x80']
+        for x in nums:
+            for y in nums:
+                i += 1
+                if i % nshards != shard:
+                    continue
+                for op in (0x93, 0x94, 0x9a, 0x9b, 0x9c, 0x9d, 0x9e, 0x9f, 0xa0, 0xa1, 0xa2, 0xa3, 0xa4):
+                    yield self.ev(bytes([op]), [numvch(x), numvch(y)], 0, tag='numgrid2')
+                for z in (-1, 0, 1, 2, 2 ** 31 - 1):
+                    yield self.ev(b'\xa5', [numvch(x), numvch(y), numvch(z)], 0, tag='numgrid3')
+            i += 1
+            if i % nshards != shard:
+                continue
+            for op in (0x8b, 0x8c, 0x8f, 0x90, 0x91, 0x92, 0x69, 0x63, 0x64, 0x73, 0x82):
+                yield self.ev(bytes([op]) + (b'\x68' if op in (0x63, 0x64) else b''), [numvch(x)], 0, tag='numgrid1')
+                for o in odd:
+                    yield self.ev(bytes([op]) + (b'\x68' if op in (0x63, 0x64) else b''), [o], 0, tag='numgrid1-noncanonical')
+        # every hash type byte 0..255 with a signature that is valid for it (exhaustive)
+        for ht in range(256):
+            i += 1
+            if i % nshards != shard:
+                continue
+            ti = 1
+            idx = ht % 3
+            pub = self.key(ht % 4)[1]
+            sc = b'\xac'
+            yield self.ev(sc, [self.sign(ht % 4, sc, ti, idx, ht), pub], 0, ti, idx, tag='hashtype')
+            if ht % 16 == 3:
+                yield self.ev(sc, [self.sign(ht % 4, sc, ti, 0, ht), pub], 0, ti, idx, tag='hashtype-wrong-index')
         # (c) limit probes
         for (sc, st) in self.limit_probes(rng):
             i += 1
@@ -589,7 +820,7 @@ class C06(Prop, ScriptGen):
                 if v <= 10001 - 3:
                     yield self.ev(b'\x4d' + v.to_bytes(2, 'little') + b'\x00' * v, [], 0, tag='pool-push')
         # (b) grammar programs, signatures, multisig, mutants — random part, every shard its own stream
-        nprog = (6000 if big else 700)
+        nprog = (22000 if big else 700)
         for _ in range(nprog):
             sc = self.gen_program(rng)
             st = [self.rand_value(rng) for _ in range(rng.choice([0, 0, 1, 2, 3, 5]))]
@@ -597,7 +828,7 @@ class C06(Prop, ScriptGen):
             yield self.ev(sc, st, mask, tag='grammar')
             if rng.random() < 0.5:
                 yield self.ev(self.mutate(rng, sc), st, mask, tag='mutant')
-        for _ in range(400 if big else 45):
+        for _ in range(1000 if big else 45):
             ti = rng.randrange(3)
             idx = rng.randrange(len(self.txs[ti]['vin']) + (1 if rng.random() < 0.1 else 0))
             sc, st = self.sig_program(rng, ti, idx)
@@ -605,15 +836,23 @@ class C06(Prop, ScriptGen):
                 yield self.ev(sc, st, mask, ti, idx, tag='checksig')
             if rng.random() < 0.3:
                 yield self.ev(self.mutate(rng, sc), st, 0, ti, idx, tag='checksig-mutant')
-        for n in list(range(21)) * (3 if big else 1):
+        for n in list(range(21)) * (6 if big else 1):
             if rng.random() < (1.0 if big else 0.25):
                 ti = rng.randrange(3)
                 idx = rng.randrange(len(self.txs[ti]['vin']))
                 sc, st = self.multisig_program(rng, ti, idx, n=n)
                 for mask in (0, 2) + ((3, 11) if big else ()):
                     yield self.ev(sc, st, mask, ti, idx, tag='multisig')
+        # (f) SEQUENCE cases (histories of calls in one process)
+        hist = self.seq_histories(rng, ADMISSIBLE)
+        for rep in range(3 if big else 1):
+            for (tag, steps) in (hist if rep == 0 else self.seq_histories(rng, ADMISSIBLE)):
+                i += 1
+                if i % nshards != shard:
+                    continue
+                yield Case(op='c06.seq', args=[x for st_ in steps for x in st_], tag=tag)
         # (d) VerifyScript
-        for _ in range(8 if big else 1):
+        for _ in range(16 if big else 1):
             ti = rng.randrange(3)
             idx = rng.randrange(len(self.txs[ti]['vin']))
             for (sig, spk, tag) in self.verify_pairs(rng, ti, idx):
@@ -650,13 +889,21 @@ class C06(Prop, ScriptGen):
             return self.run_eval(c['args'])
         if c['op'] == 'c06.verify':
             return self.run_verify(c['args'])
+        if c['op'] == 'c06.seq':
+            return self.run_history(c['args'])
         raise ValueError(c['op'])
 
     def agree(self, c, io, mo):
-        if ' ~ ' not in mo:
+        ios, mos = io.split(' ;; '), mo.split(' ;; ')
+        if len(ios) != len(mos):
             return False
-        m, r = mo.split(' ~ ')
-        return io == m and (r == '-' or r == m)
+        for i1, m1 in zip(ios, mos):
+            if ' ~ ' not in m1:
+                return False
+            m, r = m1.split(' ~ ')
+            if not (i1 == m and (r == '-' or r == m)):
+                return False
+        return True
 
     def nontrivial(self, c, io):
         return c['args'][0] != '' or c['args'][1] not in ('', '-')
@@ -664,6 +911,12 @@ class C06(Prop, ScriptGen):
     def shrink_candidates(self, c):
         a = list(c['args'])
         tag = c.get('tag', '')
+        if c['op'].endswith('.seq'):
+            n = len(a) // 7
+            for k in range(n):
+                if n > 1:
+                    yield Case(op=c['op'], args=a[:7 * k] + a[7 * (k + 1):], tag=tag)
+            return
         if a[2] != '0':
             yield Case(op=c['op'], args=[a[0], a[1], '0'] + a[3:], tag=tag)
         for k in (0, 1):
@@ -686,6 +939,8 @@ class C06(Prop, ScriptGen):
                 yield Case(op=c['op'], args=b, tag=tag)
 
     def signature(self, c, io, mo):
+        if c['op'].endswith('.seq'):
+            return None
         m = mo.split(' ~ ')[0]
         scripts = [bytes.fromhex(c['args'][0])] + ([bytes.fromhex(c['args'][1])] if c['op'] == 'c06.verify' else [])
         ops = [o for s in scripts for (o, _, _) in parse_ops(s)]
